@@ -75,6 +75,7 @@ struct StoreScript
     float delay_ms = 0;    // virtual time spent inside append
     int fail_at = -1;      // append number (of the run) that reports a non-running state
     bool fail_start = false;
+    bool stop_yields = false; // a scheduling point inside stop
 };
 
 struct Instance;
